@@ -44,8 +44,12 @@ pub fn run(ctx: &Ctx) {
     ctx.sse_vec("sse_fault_positions", "2 authentic key-mode files x every read/write/flush call index x 8 fault kinds, 1-byte reads, 3-byte writes", cases, check);
     // at the command line: after a later chunk fails the -o file holds exactly the authenticated prefix (shared with C13)
     let mut cli = Vec::new();
-    for cmd in [super::c13::Command::Decrypt, super::c13::Command::PassDecrypt] { for j in 1..4u8 { for truncate in [false, true] { for prior in [false, true] { for k in 0..ctx.n(1, 6) { cli.push(super::c13::Case { cmd, cause: super::c13::Cause::LaterChunk { j, truncate }, prior, inst: seed.wrapping_mul(77).wrapping_add(k * 131 + cli.len() as u64) }); } } } } }
+    for cmd in [super::c13::Command::Decrypt, super::c13::Command::PassDecrypt] { for j in 1..4u8 { for truncate in [false, true] { for prior in [false, true] { for k in 0..ctx.n(1, 6) { cli.push(super::c13::Case { cmd, cause: super::c13::Cause::LaterChunk { j, truncate }, prior, inst: seed.wrapping_mul(77).wrapping_add(k * 131 + cli.len() as u64), link: j == 2 && !truncate }); } } } } }
     ctx.sse_vec("cli_output_after_later_chunk_failure", "decrypt / password decrypt x chunk j in 1..3 x {corrupt, truncate} x output path {absent, longer file present}", cli, super::c13::check);
+    // success is never reported for a decryption that did not get to verify and deliver the final chunk because its reader went away (shared with C12)
+    { use super::c12::{Case as C12, Req, FileKind, SenderPos, Sink, wiring_from}; let mut v = Vec::new();
+      for (i, req) in [Req::KeyDec(FileKind::Authentic), Req::PassDec(FileKind::Authentic), Req::KeyDec(FileKind::CorruptLater)].into_iter().enumerate() { for sink in [Sink::ClosedPipe, Sink::DevFull] { for len in [1usize, 70_000, 300_000] { v.push(C12 { req, plain: crate::gen::Plain { len, seed: seed + 40 + i as u64 }, chunks: vec![], pos: SenderPos::First, wirings: vec![wiring_from(0)], sink, sel: seed, prior_out: None, env_decoy: 0, in_name: 0, typed: false, out_kinds: vec![], in_kinds: vec![], names: 0 }); } } }
+      ctx.sse_vec("cli_plaintext_reader_gone", "decrypt / password decrypt with stdout a pipe whose reader has gone, or /dev/full, x {1 B, 70 kB, 300 kB}: exit 1, no sender line - never success", v, super::c12::check); }
     ctx.pbt("pbt_key_small", ctx.n(40_000, 1_000_000), || strat(PoolSel::KeySmall, seed, 5, 25, 100, false), check);
     ctx.pbt("pbt_hook", ctx.n(40_000, 1_000_000), || strat(PoolSel::HookPass, seed, 5, 25, 100, false), check);
     ctx.pbt("pbt_key_large", ctx.n(1_500, 30_000), || strat(PoolSel::KeyLarge, seed, 3, 25, 100, true), check);
